@@ -692,7 +692,8 @@ var $makeSlice = (typ, length, capacity = length) => {
 
 var $structTypes = {};
 var $structType = (pkgPath, fields) => {
-    var typeKey = $mapArray(fields, f => { return f.name + "," + f.typ.id + "," + f.tag; }).join("$");
+    // Non-exported field names from different packages are always different.
+    var typeKey = $mapArray(fields, f => { return (f.exported ? "" : pkgPath + ".") + f.name + "," + f.typ.id + "," + f.tag; }).join("$");
     var typ = $structTypes[typeKey];
     if (typ === undefined) {
         var string = "struct { " + $mapArray(fields, f => {
